@@ -60,6 +60,13 @@ class Setup:
             if state == 'C':
                 g.send((6 << 26) | (0xEE << 16) | (0xFF << 8) | addr, bytes([1, 0, 0, 0, 0, 0, 0, 0]))
         w.run_for(0.002)
+        if requester_has_address == 'lost':
+            # the requester held 0x10 and lost it to a lower NAME: it cannot claim (and may still request the address claims,
+            # from the null address)
+            w.run_for(0.3)
+            g.send((6 << 26) | (0xEE << 16) | (0xFF << 8) | 0x10, bytes([1, 0, 0, 0, 0, 0, 0, 0]))
+            w.run_for(0.3)
+            self.lost_ok = self.req_ca.state == j1939.ControllerApplication.State.CANNOT_CLAIM
         if any(s == 'M' for s, _a in RESP[ri]):
             w.run_for(0.3)                       # operational on the preferred address
             for i, (state, addr) in enumerate(RESP[ri]):
@@ -101,7 +108,7 @@ def eval_request(s, pgn, da, acc, sc, dp=0):
     calls = s.calls[n0:]
     has_addr = s.req_ca.state == NORMAL
     probs = []
-    key = (s.ri, has_addr, pgn, da, dp)
+    key = (s.ri, sc.get('requester_has_address', has_addr), pgn, da, dp)
     if not has_addr and pgn != ADDRESSCLAIM:
         if raised is None or frames:
             probs.append("a requester without address sent a request for an ordinary PGN")
@@ -324,6 +331,10 @@ def worker(item):
         acc.violation("HARNESS: the arbitrary-address-capable responder did not move to the next address", sc)
         s.close()
         return acc
+    if getattr(s, 'lost_ok', True) is False:
+        acc.violation("HARNESS: the requester that lost its address is not in the cannot-claim state", sc)
+        s.close()
+        return acc
     try:
         n = 0
         for pgn in pgns:
@@ -344,7 +355,7 @@ def worker(item):
 
 RULE = ("every (responder configuration, requester, PGN, destination) tuple is executed on real stacks: 7 responder stack "
         "configurations (1..3 CAs in the states none / waiting for veto / operational / cannot-claim, 2 request callbacks each) "
-        "plus a second responder stack; requester with and without an address; quick: ~34 boundary PGNs (incl. the data-page "
+        "plus a second responder stack; requester with an address, without one (never started) and in the cannot-claim state after losing it; quick: ~34 boundary PGNs (incl. the data-page "
         "aliases of the address-claim PGN) x all 256 destinations, and all 2^18 PGNs to one owned destination and to the global "
         "address for one configuration; thorough: all 2^18 PGNs x {owned, second owned, unowned, global} for three configurations; "
         "non-trivial if at least one callback or claim answer is expected")
@@ -357,8 +368,8 @@ def run(tier, seed):
     bp = boundary_pgns(seed)
     das = list(range(256))
     for ri in range(len(RESP)):
-        for has_addr in (True, False):
-            pg = bp if has_addr else [ADDRESSCLAIM, 0xFECA, 0x1EE00]
+        for has_addr in (True, False, 'lost'):
+            pg = bp if has_addr is True else [ADDRESSCLAIM, 0xFECA, 0x1EE00]
             for i in range(0, 256, 64):
                 items.append(('boundary', ri, has_addr, pg, das[i:i + 64], seed))
     allp = list(range(1 << 18))
@@ -395,7 +406,7 @@ def replay(rec):
         print("no violation on this tree")
         return 0
     acc = Acc()
-    s = Setup(sc['responder_config'], sc['has_addr'])
+    s = Setup(sc['responder_config'], sc.get('requester_has_address', sc['has_addr']))
     try:
         eval_request(s, sc['pgn'], sc['da'], acc, sc, sc.get('dp', 0))
         for f in s.bus.log[-6:]:
